@@ -11,7 +11,7 @@ import (
 )
 
 var profile = vh.ShimProfile{
-	Validities:   []string{"current", "forever"},
+	Validities:   []string{"current", "current", "forever", "forever", "past", "justpast"}, // expired ones: the purge runs inside the same listing as the hiding
 	KeyIDClasses: vh.AllKeyIDClasses,
 	MaxOps:       25,
 	NoUpstream:   2, // the generator draws the mode-off history; the pair is derived from it
@@ -56,7 +56,7 @@ func exec(c vh.ShimCase) (vh.Outcome, error) {
 	return out, nil
 }
 
-const rule = "differential pairs: one generated history (0..6 initial identities, then up to 25 operations: add key / certificate+key / hardware certificate, remove, remove-all, list, signers, sign, sign through a signer, out-of-band edits) is executed on a no-upstream shim and on a normal shim, each over its own proxy and keyring with identical initial content. Certificates carry a valid YSSHCA KeyID of each of the 7 types (plus one that selects no type and one whose principal list is encoded as null), a near-miss (missing member, unsupported version, inconsistent flags), free text or an empty KeyID; YSSHCA certificates are present at construction and added later. Oracle per shim: reference model in which a keyring certificate is hidden iff the mode is on and the reference KeyID decoder accepts its KeyID; listings and signers as multisets, sign naming a hidden certificate errs and reaches no sign frame, in-memory hardware certificates and all other identities sign with verifying signatures, removal of hidden certificates works; with the mode off nothing is hidden. Non-trivial: the history puts a YSSHCA certificate into the underlying agent and a later list / signers / sign involves it."
+const rule = "differential pairs: one generated history (0..6 initial identities, then up to 25 operations: add key / certificate+key / hardware certificate, remove, remove-all, list, signers, sign, sign through a signer, out-of-band edits) is executed on a no-upstream shim and on a normal shim, each over its own proxy and keyring with identical initial content. A third of the certificates are expired (the listing that purges them is the listing that hides). Certificates carry a valid YSSHCA KeyID of each of the 7 types (plus one that selects no type and one whose principal list is encoded as null), a near-miss (missing member, unsupported version, inconsistent flags), free text or an empty KeyID; YSSHCA certificates are present at construction and added later. Oracle per shim: reference model in which a keyring certificate is hidden iff the mode is on and the reference KeyID decoder accepts its KeyID; listings and signers as multisets, sign naming a hidden certificate errs and reaches no sign frame, in-memory hardware certificates and all other identities sign with verifying signatures, removal of hidden certificates works; with the mode off nothing is hidden. Non-trivial: the history puts a YSSHCA certificate into the underlying agent and a later list / signers / sign involves it."
 
 func TestC09NoUpstream(t *testing.T) {
 	vh.Run(t, vh.Spec[vh.ShimCase]{Property: "C09", Name: "TestC09NoUpstream", Rule: rule + vh.ShimGenNote,
